@@ -1,5 +1,5 @@
 import PgsVerif.Model.Hydrate
-import PgsVerif.Generated.Code
+import PgsVerif.Generated.Code_hydratePhases
 /-!
 # Tie (translated code): the order in which `hydrate*` registers what a file declares
 
